@@ -887,7 +887,7 @@
 #endif
 
 #ifndef SEXP_MAX_VECTOR_LENGTH
-#define SEXP_MAX_VECTOR_LENGTH (SEXP_MAX_FIXNUM >> 1)
+#define SEXP_MAX_VECTOR_LENGTH (SEXP_MAX_FIXNUM >> 4)  /* length * sizeof(sexp) must not overflow */
 #endif
 
 #ifndef SEXP_DEFAULT_EQUAL_DEPTH
